@@ -529,7 +529,13 @@ def receiver_chains(body, op, depth=0):
         ag = _agg_of_local(body, p["l"])
         if ag is not None and ag.get("kind") in ("closure", "tuple") and fi < len(ag["ops"]):
             return receiver_chains(body, ag["ops"][fi], depth + 1)
+    seen_defs = set()       # a threaded view repeats one statement in several copies of its block: one alternative, not many
     for d in body.defs.get(p["l"], []):
+        dk = repr(d[3]) if d[0] == "stmt" else (repr((d[2]["func"], d[2]["args"])) if d[0] == "call" else None)
+        if dk is not None:
+            if dk in seen_defs:
+                continue
+            seen_defs.add(dk)
         if d[0] == "stmt":
             rv = d[3]
             q = rv.get("ref") or rv.get("rawptr")
@@ -1022,4 +1028,51 @@ def const_variant(body, op, depth=0):
     q = rv.get("ref")
     if q is not None:
         return const_variant(body, {"copy": {"l": q["l"], "p": []}}, depth + 1)
+    return None
+
+
+def region_agg(body, region, op, depth=0):
+    """The aggregate an operand holds *inside one arm* of a match: definitions are looked up only in the blocks of `region`
+    (after variant threading every arm has its own copy of a shared tail, while the locals are shared - a flow-insensitive
+    lookup would mix the arms). Follows plain moves/copies and reads of a payload field of a variant built in the region
+    (`Outer::V(inner)` ... `(x as V).0`). Returns the aggregate dict or None (unknown / ambiguous)."""
+    if depth > 32:
+        return None
+    p = op_place(op) if isinstance(op, dict) and ("move" in op or "copy" in op) else (op if isinstance(op, dict) and "l" in op else None)
+    if p is None:
+        return None
+    defs = []
+    for b in region:
+        for st in body.blocks[b]["stmts"]:
+            if st["k"] == "assign" and st["place"]["l"] == p["l"] and not st["place"]["p"]:
+                defs.append(st["rv"])
+        t = body.blocks[b]["term"]
+        if t["k"] == "call" and t["dest"]["l"] == p["l"] and not t["dest"]["p"]:
+            defs.append(None)
+    if len(defs) != 1 or defs[0] is None:
+        return None
+    rv = defs[0]
+    proj = [e for e in p["p"] if e != "deref"]
+    if "agg" in rv:
+        ag = rv["agg"]
+        if not proj:
+            return ag
+        # (x as V).k : the k-th operand of the aggregate, provided it built variant V
+        if len(proj) >= 2 and isinstance(proj[0], dict) and "downcast" in proj[0] and isinstance(proj[1], dict) and "f" in proj[1]:
+            if ag.get("kind") == "adt" and ag.get("variant") == proj[0]["downcast"] and proj[1]["f"] < len(ag["ops"]):
+                inner = ag["ops"][proj[1]["f"]]
+                ip = op_place(inner)
+                if ip is None:
+                    return None
+                return region_agg(body, region, {"l": ip["l"], "p": list(ip["p"]) + proj[2:]}, depth + 1)
+        return None
+    for k in ("use",):
+        if k in rv:
+            ip = op_place(rv[k])
+            if ip is None:
+                return None
+            return region_agg(body, region, {"l": ip["l"], "p": list(ip["p"]) + proj}, depth + 1)
+    if "ref" in rv:
+        ip = rv["ref"]
+        return region_agg(body, region, {"l": ip["l"], "p": list(ip["p"]) + proj}, depth + 1)
     return None
